@@ -122,8 +122,8 @@ def redetect(name, checks):
     detection_before_strengthening."""
     d = f"/verif/seeded/{name}"
     meta = json.load(open(os.path.join(d, "meta.json")))
-    if "detection_before_strengthening" not in meta and not all(c in meta.get("detected_by", []) for c in [meta["property"]]):
-        meta["detection_before_strengthening"] = meta.get("detection", {})
+    if "own_check_detected_it_on_arrival" not in meta:
+        meta["own_check_detected_it_on_arrival"] = meta["property"] in meta.get("detected_by", [])
     dres = detect(d, checks, name.replace("-", "_"))
     meta.setdefault("detection", {}).update(dres)
     meta["detected_by"] = sorted(c for c, r in meta["detection"].items() if r["exit"] == 1)
